@@ -79,6 +79,10 @@ func NewParameters(rlweParams rlwe.Parameters, t uint64) (p Parameters, err erro
 		return Parameters{}, fmt.Errorf("provided RLWE parameters are invalid for BGV scheme (NTTFlag must be true)")
 	}
 
+	if rlweParams.RingType() != ring.Standard {
+		return Parameters{}, fmt.Errorf("provided RLWE parameters are invalid for BGV scheme (RingType must be ring.Standard)")
+	}
+
 	if t == 0 {
 		return Parameters{}, fmt.Errorf("invalid parameters: t = 0")
 	}
